@@ -77,6 +77,7 @@ func (e *Engine) verifyFunc(fn *ssa.Function, ct *Contract) (r *FnRun) {
 		v := r.freshVal(st, p.Type(), "p_"+p.Name())
 		fr.vals[p] = v
 		fr.env[p.Name()] = v
+		r.boundedBy(st.top, v) // whatever a parameter refers to exists already
 		if i == 0 && fn.Signature.Recv() != nil {
 			if pv, ok := v.(PtrVal); ok {
 				r.assume(Gt(pv.Ref, IntLit(0)))
